@@ -43,9 +43,10 @@ extern "C" void vf_thread_0() {
 extern "C" void vf_thread_0() {
   uint64_t len = vf_nondet64(); vf_assume(len <= VF_INLEN);
   for (int i = 0; i < VF_INLEN; ++i) in[i] = (uint8_t)vf_nondet64();
+  const uint8_t* input = in + (VF_INLEN - len);     // the input ends exactly where the allocation ends: any read past it is flagged
   Agg y; y.a = 0; y.b = 0; y.c = false; y.in.u = 0; y.in.s = 0;
   bool ok;
-  { CodedInputStream is(in, (int)len); ok = Serialization::parse_from_coded_stream(is, y); }       // must terminate, stay in bounds
+  { CodedInputStream is(input, (int)len); ok = Serialization::parse_from_coded_stream(is, y); }       // must terminate, stay in bounds
   if (ok) {                                                                  // success => canonical re-encoding parses back to itself
     int n = ser(y, out, 96); vf_check(n >= 0, 5);
     Agg z; z.a = 1; z.b = 1; z.c = true; z.in.u = 1; z.in.s = 1;
